@@ -15,7 +15,7 @@ from pv.ref import lex as rlex
 ID = 'C18'
 TITLE = 'Constant quoting, evaluation and typing'
 TECHNIQUE = 'bounded-exhaustive enumeration of all short strings / atom texts plus Hypothesis text; round-trip oracle evaluate(quote(x)) == x, one-STRING-token oracle under the real and the reference lexer, JSON-number-grammar reference for evaluate/type'
-RULE = ('cases: (a) every Python string of length <= L over a 19-symbol alphabet (quote, backslash, LF, TAB, NUL, '
+RULE = ('cases: (a) every Python string of length <= L over a 22-symbol alphabet (quote, backslash, LF, CR, TAB, NUL, combining acute, Angstrom sign, '
         'DEL, e-acute, U+2028, U+0085, a lone surrogate, delimiters, blank, letter) [exhaustive], random long '
         'strings incl. surrogates, ints/floats, None -> quote(); (b) every atom text of length <= L over '
         '"01 9-+.eE\\"\\\\anNIt[]" [exhaustive] and random atoms -> evaluate()/type(). Non-trivial: string has a '
@@ -28,7 +28,7 @@ ASSUMPTIONS = [
 ]
 
 STR_ALPHA = ['"', '\\', '\n', '\t', '\x00', '\x7f', '\xe9', '\u2028', '\x85', '\ud800',
-             '(', ')', '/', ':', '~', '#', ' ', 'a', 'u', '\u0301', '\u212b']       # a + U+0301 and U+212B are not in NFC
+             '(', ')', '/', ':', '~', '#', ' ', 'a', 'u', '\u0301', '\u212b', '\r']       # a + U+0301 and U+212B are not in NFC
 ATOM_ALPHA = list('019-+.eE"\\anNIt[]')
 NUM_RE = re.compile(r'-?(0|[1-9][0-9]*)(\.[0-9]+)?([eE][+-]?[0-9]+)?')
 PLAIN_RE = re.compile(r'[A-Za-z_-]+')
@@ -64,6 +64,13 @@ def check_quote(x):
         f.append(('quote-typed-string', 'type(%r) -> %r' % (q, constant.type(q))))
     # in context: the quoted text is one atom of a graph and survives a text trip
     t = penman.parse('(a :r ' + q + ')')
+    # ... also with further strings after it on the same line (where one string ends decides where the next begins)
+    t3 = penman.parse('(a :r ' + q + ' :s "t" :u ' + q + ')')
+    if t3.node != ('a', [(':r', q), (':s', '"t"'), (':u', q)]):
+        f.append(('quote-in-graph', 'parse("(a :r %s :s "t" :u %s)") -> %r' % (q, q, t3.node)))
+    c3 = penman.parse_triples('r(a, ' + q + ') ^ s(a, "t") ^ u(a, ' + q + ')')
+    if c3 != [('a', ':r', q), ('a', ':s', '"t"'), ('a', ':u', q)]:
+        f.append(('quote-in-conjunction', 'parse_triples with %s twice -> %r' % (q, c3)))
     if t.node != ('a', [(':r', q)]):
         f.append(('quote-in-graph', 'parse("(a :r %s)") -> %r' % (q, t.node)))
     else:
